@@ -48,7 +48,9 @@ def skipYamlWhitespaceGo : Nat → Bool → S Bool
 
 def skipYamlWhitespace : S Unit := do
   let s ← getS
-  if ← skipYamlWhitespaceGo (s.inp.remaining + 2) true then err (← getMark) "expected whitespace"
+  if ← skipYamlWhitespaceGo (s.inp.remaining + 2) true then
+    -- the end of the input separates as well as a blank does
+    if !(← liftI In.nextIsZ) then err (← getMark) "expected whitespace"
 
 -- stream ----------------------------------------------------------------------------------------
 
